@@ -1,0 +1,23 @@
+import os
+from pathlib import Path
+from typing import Union
+
+
+def write_atomically(path: Union[str, Path], data: bytes) -> None:
+    """
+    Writes `data` to a temporary sibling file and moves it into place, so that a failure while
+    writing never leaves a truncated output file behind (or a destroyed source document, when the
+    output replaces it).
+    """
+    target = Path(path)
+    tmp = target.with_name(f".{target.name}.{os.getpid()}.tmp")
+    try:
+        with open(tmp, "wb") as f:
+            f.write(data)
+        os.replace(tmp, target)
+    except BaseException:
+        try:
+            tmp.unlink()
+        except OSError:
+            pass
+        raise
